@@ -6,8 +6,12 @@
   Standing shape assumptions, stated as hypotheses where used:
     KvSorted s.kv   keys strictly ascending (leveldb order);  Desc ws  versions strictly descending;
     WellTimed ws    rollback records sit at their start ts, data records above it (distinct timestamps).
+  They are not assumptions about reachable states: `reachable_store_wellformed` proves all of them for every state
+  reachable from the empty store by any command sequence respecting the callers' contract (Proofs/MvccReach.lean).
 -/
 import ClientGoVerif.Proofs.MvccInv
+import ClientGoVerif.Proofs.MvccReach
+import ClientGoVerif.Proofs.MvccTemporal
 namespace CGV.Props.C12
 open CGV CGV.Mvcc
 
@@ -133,18 +137,49 @@ theorem gc_preserves_reads_ge_safepoint (s s' : Store) (a b : Bytes) (sp ts : Na
 
 /-! ## never both committed and rolled back
 
-Full statement (all reachable states of command sequences satisfying the property's preconditions): -/
+Full statement: in EVERY state reachable from the empty store by any sequence of state-changing commands of the
+driver's alphabet (`Cmd` = prewrite, plock, prollback, commit, rollback, cleanup, status, heartbeat, resolve,
+bresolve, gc, deleteRange) whose callers respect the property's preconditions (`Cmd.Ok`: commit ts above start ts,
+duplicate-free key batches, no pessimistic-lock request for a transaction that already has a record on the key),
+no key holds both a rollback record and a data record of one transaction; the records of every key are in
+descending commit-ts order with commit ts ≥ start ts, and a lock's transaction has no record on that key. -/
 def StoreNoMix (s : Store) : Prop := ∀ p ∈ s.kv, NoMix p.2.writes
-/-- `cmds` ranges over the command alphabet of the driver (`MvccProto.exec`); `Pre` = the property's preconditions
-    (pairwise distinct start/commit timestamps, no pessimistic-lock request after the transaction finished on the key).
-    NOT proved as a whole yet: the per-command assembly over `exec` is missing; the kernel below is what is proved. -/
-def not_both_committed_and_rolled_back_full (run : List String → Store) (Pre : List String → Prop) : Prop :=
-  ∀ cmds, Pre cmds → StoreNoMix (run cmds)
 
-/-- proved kernel: the only acts that write a record — committing a lock, rolling back a lock, writing a bare
+theorem not_both_committed_and_rolled_back (s : Store) (h : Reachable s) : StoreNoMix s :=
+  fun p hp => (h.entries p hp).nomix
+
+theorem reachable_store_wellformed (s : Store) (h : Reachable s) :
+    KvSorted s.kv ∧ ∀ p ∈ s.kv, Desc p.2.writes ∧ WellTimed p.2.writes ∧
+      ∀ l, p.2.lock = some l → Fresh p.2.writes l.startTS :=
+  ⟨h.inv.1, fun p hp => ⟨(h.entries p hp).desc, (h.entries p hp).timed, (h.entries p hp).lockFresh⟩⟩
+
+/-- refinement: every command moves every key by exactly one of the nine labelled steps of `KStep`
+    (same, commit, rollback, marker, locks, touch, unlock, gc, wipe), with a label the command allows for that key -/
+theorem every_command_refines_key_steps (s : Store) (c : Cmd) (hs : SInv s) (hok : c.Ok s) :
+    KvSorted (c.run s).kv ∧ ∀ k, ∃ lab, c.labels k lab ∧ KStep (getEntry s.kv k) lab (getEntry (c.run s).kv k) :=
+  run_refines s c hs hok
+
+/-- in every reachable state a transaction has at most one record on a key -/
+theorem reachable_one_record_per_txn (s : Store) (h : Reachable s) (k : Bytes) : Uniq (getEntry s.kv k).writes := h.uniq k
+
+/-- the same over command lists, from any state that already satisfies the invariant -/
+theorem not_both_committed_and_rolled_back_runs (cs : List Cmd) (hok : OkAll {} cs) :
+    ∀ k, NoMix (getEntry (runAll {} cs).kv k).writes :=
+  fun k => ((runAll_inv {} cs SInv.empty hok).2 k).nomix
+
+/-- non-vacuity: a prewrite, commit, late rollback, and a second transaction's prewrite + rollback respect the contract -/
+example : OkAll {} [
+    Cmd.prewrite { mutations := [⟨.put, [0x61], [1], .none⟩], primary := [0x61], startTS := 10, ttl := 3000 },
+    Cmd.commit [[0x61]] 10 20,
+    Cmd.rollback [[0x61]] 10,
+    Cmd.prewrite { mutations := [⟨.put, [0x61], [2], .none⟩], primary := [0x61], startTS := 30, ttl := 3000 },
+    Cmd.rollback [[0x61]] 30] := by
+  simp [OkAll, Cmd.Ok]
+
+/-- the kernel the reachable-state theorem rests on: the only acts that write a record — committing a lock, rolling back a lock, writing a bare
     marker — keep "no transaction has both a rollback and a data record on the key", provided the transaction has
     no record there yet; and a prewrite that takes a lock guarantees exactly that freshness. -/
-theorem not_both_committed_and_rolled_back_partial (e : Entry) (l : Lock) (k : Bytes) (T C : Nat)
+theorem not_both_committed_and_rolled_back_kernel (e : Entry) (l : Lock) (k : Bytes) (T C : Nat)
     (hn : NoMix e.writes) (hf : Fresh e.writes T) :
     NoMix ((commitLock l k T C).foldl entryAct e).writes ∧
       NoMix ((rollbackLock k T).foldl entryAct e).writes ∧
@@ -165,7 +200,7 @@ theorem pessimistic_over_own_prewrite_refused (s : Store) (wf : WaitFor) (r : PL
     plMutation s wf r m = (some (.abort "own-prewrite-lock"), none, [], wf) := by
   have h1 : (r.lockOnlyIfExists && !r.returnValues) = false := by
     cases h2 : r.lockOnlyIfExists <;> cases h3 : r.returnValues <;> simp_all
-  simp [plMutation, h1, hl, hs, hp]
+  simp [plMutation, plForeign, plOwnPrewrite, h1, hl, hs, hp]
 
 /-- committing a leftover pessimistic lock changes no data: the lock goes, no record is written -/
 theorem commit_pessimistic_lock_no_data (l : Lock) (k : Bytes) (T C : Nat) (h : l.op = .pessimisticLock) :
